@@ -54,15 +54,17 @@ theorem history_independent (S : Spec α P ν κ C) (E : Env α P) (nbe : Bool) 
 from exactly those values -/
 theorem cache_holds_function_values (S : Spec α P ν κ C) (E : Env α P) (nbe : Bool) (ps : List P) :
     (∀ u v, lookup u (run S E nbe St.init ps).data = some v →
-        E.isnan (E.f (S.coord u)) = false ∧ v = E.norm (E.f (S.coord u))) ∧
+        ∃ w, E.f (S.coord u) = some w ∧ E.isnan w = false ∧ v = E.norm w) ∧
     (∀ c co, lookup c (run S E nbe St.init ps).coeffs = some co →
+        (S.stencil c).all (fun u => (E.f (S.coord u)).isSome) = true ∧
         S.build c ((S.stencil c).map (nodeVal S E)) = some co) :=
   run_inv S E nbe ps _ (inv_init S E)
 
-/-- which calls the wrapped function receives: none for a calculated cell; otherwise exactly the not-yet-sampled nodes
-of the cell's stencil, in stencil order; outside: the point itself (pass-through) or nothing (raise) -/
+/-- which calls the wrapped function receives (when it returns everywhere): none for a calculated cell; otherwise
+exactly the not-yet-sampled nodes of the cell's stencil, in stencil order; outside: the point itself (pass-through) or
+nothing (raise) -/
 theorem calls_exact (S : Spec α P ν κ C) (E : Env α P) (nbe : Bool) (st : St α ν κ C) (p : P)
-    (hnd : ∀ c, (S.stencil c).Nodup) :
+    (hnd : ∀ c, (S.stencil c).Nodup) (htot : ∀ q, (E.f q).isSome) :
     (evalStep S E nbe st p).2.2 =
       match S.locate p with
       | none => if nbe then [p] else []
@@ -72,23 +74,76 @@ theorem calls_exact (S : Spec α P ν κ C) (E : Env α P) (nbe : Bool) (st : St
         | none => ((S.stencil c).filter fun u => (lookup u st.data).isNone).map S.coord := by
   unfold evalStep
   cases hloc : S.locate p with
-  | none => cases nbe <;> rfl
+  | none => cases nbe <;> simp <;> cases E.f p <;> rfl
   | some c =>
     simp only []
     cases hco : lookup c st.coeffs with
     | some co => rfl
     | none =>
       simp only []
-      split <;> exact sample_calls S E _ (hnd c) _
+      split
+      · split <;> exact sample_calls S E _ (hnd c) htot _
+      · exact sample_calls S E _ (hnd c) htot _
 
-/-- **outside_policy.**  Where `locate` finds no cell the result is `ValueError`, or with `no_boundary_error` the
-wrapped function's own value; the cache is not touched. -/
+/-- **outside_policy.**  Where `locate` finds no cell the result is `ValueError`, or with `no_boundary_error` whatever
+the wrapped function itself does at `p` (value or exception); the cache is not touched. -/
 theorem outside_policy (S : Spec α P ν κ C) (E : Env α P) (nbe : Bool) (st : St α ν κ C) (p : P)
     (h : S.locate p = none) :
-    evalStep S E nbe st p = (st, if nbe then .val (E.f p) else .raise, if nbe then [p] else []) := by
+    evalStep S E nbe st p =
+      (st, if nbe then (match E.f p with | some v => .val v | none => .fraise) else .raise, if nbe then [p] else []) := by
   unfold evalStep
   rw [h]
-  cases nbe <;> rfl
+  cases nbe <;> simp <;> cases E.f p <;> rfl
+
+/-- **a raising wrapped function.**  If the wrapped function raises at some node of the cell's stencil the evaluation
+raises — after any history, and however often it is repeated: the cell is never flagged as calculated and no
+coefficient block (NaN or otherwise) is ever stored for it. -/
+theorem raising_function_never_cached (S : Spec α P ν κ C) (E : Env α P) (nbe : Bool) (ps : List P) (p : P) (c : κ)
+    (hc : S.locate p = some c) (u : ν) (hu : u ∈ S.stencil c) (hr : E.f (S.coord u) = none) :
+    (evalStep S E nbe (run S E nbe St.init ps) p).2.1 = .fraise ∧
+    lookup c (run S E nbe St.init ps).coeffs = none := by
+  have hall : (S.stencil c).all (fun u => (E.f (S.coord u)).isSome) = false := by
+    rw [List.all_eq_false]
+    exact ⟨u, hu, by simp [hr]⟩
+  constructor
+  · rw [memo_transparent]
+    simp [evalPure, hc, hall]
+  · cases hl : lookup c (run S E nbe St.init ps).coeffs with
+    | none => rfl
+    | some co =>
+      have := ((cache_holds_function_values S E nbe ps).2 c co hl).1
+      rw [hall] at this; cases this
+
+/-- **recovery.**  The state reached under one behaviour of the wrapped function (`E₁`, e.g. raising at some nodes) is
+consistent with any behaviour `E₂` that agrees with `E₁` wherever `E₁` returned: evaluating afterwards under `E₂` gives
+exactly what a fresh cache would give under `E₂`. -/
+theorem recovery_transparent (S : Spec α P ν κ C) (E₁ E₂ : Env α P) (nbe : Bool)
+    (hsame : E₁.isnan = E₂.isnan ∧ E₁.nan = E₂.nan ∧ E₁.norm = E₂.norm)
+    (hagree : ∀ q w, E₁.f q = some w → E₂.f q = some w) (ps qs : List P) (p : P) :
+    (evalStep S E₂ nbe (run S E₂ nbe (run S E₁ nbe St.init ps) qs) p).2.1 = evalPure S E₂ nbe p := by
+  obtain ⟨h1, h2, h3⟩ := hsame
+  have hinv1 := run_inv S E₁ nbe ps _ (inv_init S E₁)
+  have hinv2 : Inv S E₂ (run S E₁ nbe St.init ps) := by
+    constructor
+    · intro u v h
+      obtain ⟨w, a, b, c⟩ := hinv1.1 u v h
+      exact ⟨w, hagree _ _ a, by rw [← h1]; exact b, by rw [← h3]; exact c⟩
+    · intro c co h
+      obtain ⟨a, b⟩ := hinv1.2 c co h
+      have hall : (S.stencil c).all (fun u => (E₂.f (S.coord u)).isSome) = true := by
+        rw [List.all_eq_true] at a ⊢
+        intro u hu
+        obtain ⟨w, hw⟩ := Option.isSome_iff_exists.mp (a u hu)
+        simp [hagree _ _ hw]
+      refine ⟨hall, ?_⟩
+      have hnv : (S.stencil c).map (nodeVal S E₂) = (S.stencil c).map (nodeVal S E₁) := by
+        apply List.map_congr_left
+        intro u hu
+        rw [List.all_eq_true] at a
+        obtain ⟨w, hw⟩ := Option.isSome_iff_exists.mp (a u hu)
+        simp [nodeVal, hw, hagree _ _ hw, h1, h2, h3]
+      rw [hnv]; exact b
+  exact (evalStep_spec S E₂ nbe _ (run_inv S E₂ nbe qs _ hinv2) p).2
 
 end Memo
 
@@ -139,13 +194,13 @@ theorem outside_area_no_cell (trunc : α → Nat) (mn mx dx : α) (h : mn < mx) 
 theorem outside_area_1d (E : Ext α) (trunc : α → Nat) (mn mx dx : α) (h : mn < mx) (hd : EPS < dx) (nm : Norm α)
     (En : Env α α) (nbe : Bool) (st : St α Nat Nat (Nat → α)) (p : α) (ho : p < mn - EPS ∨ mx + EPS ≤ p) :
     evalStep (spec1 E (mkAxis trunc mn mx dx) nm) En nbe st p =
-      (st, if nbe then .val (En.f p) else .raise, if nbe then [p] else []) :=
+      (st, if nbe then (match En.f p with | some v => .val v | none => .fraise) else .raise, if nbe then [p] else []) :=
   outside_policy _ En nbe st p (outside_area_no_cell trunc mn mx dx h hd p ho)
 
 /-- in 2-D / 3-D one coordinate outside suffices -/
 theorem outside_area_2d (E : Ext α) (ax ay : Axis α) (nm : Norm α) (En : Env α (α × α)) (nbe : Bool)
     (st : St α (Nat × Nat) (Nat × Nat) (Nat → α)) (p : α × α) (ho : cellOf ax p.1 = none ∨ cellOf ay p.2 = none) :
-    evalStep (spec2 E ax ay nm) En nbe st p = (st, if nbe then .val (En.f p) else .raise, if nbe then [p] else []) := by
+    evalStep (spec2 E ax ay nm) En nbe st p = (st, if nbe then (match En.f p with | some v => .val v | none => .fraise) else .raise, if nbe then [p] else []) := by
   apply outside_policy
   show cellOf2 ax ay p = none
   unfold cellOf2
@@ -157,7 +212,7 @@ theorem outside_area_3d (E : Ext α) (ax ay az : Axis α) (nm : Norm α) (En : E
     (st : St α (Nat × Nat × Nat) (Nat × Nat × Nat) (Nat → α)) (p : α × α × α)
     (ho : cellOf ax p.1 = none ∨ cellOf ay p.2.1 = none ∨ cellOf az p.2.2 = none) :
     evalStep (spec3 E ax ay az nm) En nbe st p =
-      (st, if nbe then .val (En.f p) else .raise, if nbe then [p] else []) := by
+      (st, if nbe then (match En.f p with | some v => .val v | none => .fraise) else .raise, if nbe then [p] else []) := by
   apply outside_policy
   show cellOf3 ax ay az p = none
   unfold cellOf3
